@@ -76,6 +76,9 @@ class _Sink:
 
 
 def oracle(u: Universe, tc: TypeCase, aval: Dict[str, Any], route: str, tally: Tally) -> List[Fail]:
+    if route.endswith("@604"):
+        # the same type declared with PEP 604 / builtin-generic annotations (plugin option typing.310)
+        u, route = u.view604(), route[:-4]
     fails: List[Fail] = []
     try:
         m = build(u, tc, aval, route)
@@ -135,11 +138,14 @@ def routes_fn(tc: TypeCase, aval) -> tuple:
         r = r + ("ctor_fresh", "setattr_fresh")
     if lazy_variant(tc.msg, aval):
         r = r + ("lazy",)
+    if tc.tag in ("T1", "KS", "TN", "REC"):
+        r = r + ("ctor@604", "inplace@604", "parse@604")
     return r
 
 
 def run(ctx: Ctx) -> None:
     u = get_universe(ctx.tier)
+    u.view604()  # built before the workers fork
     t = run_universe(ctx, u, oracle, routes_fn)
     ctx.coverage.update(
         states=t.n.get("cases", 0),
